@@ -184,6 +184,11 @@ func (c *HostClient) ConnectionCount() (count int) {
 }
 
 func (c *HostClient) WantConnectionCount() (count int) {
+	c.connsLock.Lock()
+	defer c.connsLock.Unlock()
+	if c.connsWait == nil {
+		return 0
+	}
 	return c.connsWait.len()
 }
 
